@@ -7,6 +7,7 @@ import (
 	"errors"
 	"fmt"
 	"math"
+	"reflect"
 	"slices"
 	"strings"
 
@@ -62,6 +63,43 @@ type Manifest struct {
 	Trusts WildPermissionDescs `json:"trusts"`
 	// Extra is an implementation-defined user data.
 	Extra json.RawMessage `json:"extra"`
+}
+
+// UnmarshalJSON implements the json.Unmarshaler interface. Members are taken
+// by their exact names: encoding/json matches names case-insensitively and
+// lets the last match win, so a member like "Permissions" would replace the
+// properly spelled one.
+func (m *Manifest) UnmarshalJSON(data []byte) error {
+	raw := make(map[string]json.RawMessage)
+	if err := json.Unmarshal(data, &raw); err != nil {
+		var te *json.UnmarshalTypeError
+		if errors.As(err, &te) && te.Field == "" {
+			te.Type = reflect.TypeOf(*m) // It's the manifest that can't be decoded, not the map.
+		}
+		return err
+	}
+	for _, f := range []struct {
+		name string
+		dst  any
+	}{
+		{"name", &m.Name},
+		{"abi", &m.ABI},
+		{"features", &m.Features},
+		{"groups", &m.Groups},
+		{"permissions", &m.Permissions},
+		{"supportedstandards", &m.SupportedStandards},
+		{"trusts", &m.Trusts},
+		{"extra", &m.Extra},
+	} {
+		v, ok := raw[f.name]
+		if !ok {
+			continue
+		}
+		if err := json.Unmarshal(v, f.dst); err != nil {
+			return err
+		}
+	}
+	return nil
 }
 
 // Ensure required interface are implemented for proper RPC bindings generation.
